@@ -361,6 +361,6 @@ var subFaultedTrace = ev.Register("faultedtrace", func(c FaultedCase) error {
 func TestPropFaultedTrace(t *testing.T) {
 	ev.Check(t, subFaultedTrace, func(t *rapid.T) FaultedCase {
 		w := world.Gen(t, world.Config{MaxRemotes: 3, MaxRegistry: 2, NFinders: nFinders})
-		return FaultedCase{World: w, Fault: world.Fault{Kind: rapid.SampledFrom([]string{"fetch", "versions", "source", "source", "finder-error"}).Draw(t, "kind"), N: rapid.IntRange(1, 3).Draw(t, "n")}}
+		return FaultedCase{World: w, Fault: world.Fault{Kind: rapid.SampledFrom([]string{"fetch", "versions", "versions-empty", "source", "source", "finder-error"}).Draw(t, "kind"), N: rapid.IntRange(1, 3).Draw(t, "n")}}
 	})
 }
